@@ -4,6 +4,7 @@ import (
 	"fmt"
 	"os"
 	"path/filepath"
+	"sync"
 	"time"
 
 	"github.com/glowlabs-org/gca-backend/client"
@@ -28,6 +29,28 @@ type rEnv struct {
 	cli   *hx.CliEnv
 	dev   string
 	gca   string // the GCA whose signature lists must carry now
+
+	mu       sync.Mutex
+	rids     map[uint64]string // goroutine -> round name, for rounds that overlap
+	lastPick map[string]string // round name -> server picked last
+	parkAt   string            // round name to hold at the yield point sync:picked (once)
+	parked   chan struct{}
+	unpark   chan struct{}
+}
+
+// rid names the round the calling goroutine is running ("" when rounds do not overlap).
+func (r *rEnv) rid() string {
+	r.mu.Lock()
+	defer r.mu.Unlock()
+	return r.rids[hx.GoID()]
+}
+
+// with adds the round name to an event.
+func (r *rEnv) with(j hx.J) hx.J {
+	if x := r.rid(); x != "" {
+		j["rid"] = x
+	}
+	return j
 }
 
 func (r *rEnv) fake(name string) *hx.FakeTCP {
@@ -118,24 +141,50 @@ func (r *rEnv) build(owner string, sp replySpec) []byte {
 	return hx.RefReplyBytes(rr)
 }
 
+// roundAs runs one sync round under the given name in its own goroutine; the channel
+// delivers the result after the RoundEnd event has been recorded.
+func (r *rEnv) roundAs(name string) chan bool {
+	res := make(chan bool, 1)
+	go func() {
+		if name != "" {
+			r.mu.Lock()
+			r.rids[hx.GoID()] = name
+			r.mu.Unlock()
+		}
+		var ok bool
+		done := make(chan string, 1)
+		go func() {
+			if name != "" {
+				r.mu.Lock()
+				r.rids[hx.GoID()] = name
+				r.mu.Unlock()
+			}
+			done <- catchPanic(func() { ok = r.cli.C.VerifSyncRound(0) })
+		}()
+		var p string
+		select {
+		case p = <-done:
+		case <-time.After(20 * time.Second):
+			p = "round did not return within 20 s"
+		}
+		lockfree := r.cli.C.VerifTryLock()
+		j := hx.J{"a": "RoundEnd", "ok": ok, "panic": p, "lockfree": lockfree, "dev": r.dev, "files": r.abs.CliFilesJ(r.cli.Dir)}
+		if lockfree {
+			j["state"] = r.abs.CliStateJ(r.cli.C.VerifState())
+		} else {
+			j["state"] = j["files"]
+		}
+		if name != "" {
+			j["rid"] = name
+		}
+		r.t.Emit(j)
+		res <- ok
+	}()
+	return res
+}
+
 func (r *rEnv) round() bool {
-	var ok bool
-	done := make(chan string, 1)
-	go func() { done <- catchPanic(func() { ok = r.cli.C.VerifSyncRound(0) }) }()
-	var p string
-	select {
-	case p = <-done:
-	case <-time.After(20 * time.Second):
-		p = "round did not return within 20 s"
-	}
-	lockfree := r.cli.C.VerifTryLock()
-	j := hx.J{"a": "RoundEnd", "ok": ok, "panic": p, "lockfree": lockfree, "dev": r.dev, "files": r.abs.CliFilesJ(r.cli.Dir)}
-	if lockfree {
-		j["state"] = r.abs.CliStateJ(r.cli.C.VerifState())
-	} else {
-		j["state"] = j["files"]
-	}
-	r.t.Emit(j)
+	ok := <-r.roundAs("")
 	// the report loop must still be able to complete an iteration
 	r.t.Emit(hx.J{"a": "LoopProbe", "ok": r.cli.Iterate()})
 	return ok
@@ -164,7 +213,8 @@ func runRounds(c *ctx) error {
 	newEnv := func(name string, servers map[string]bool) (*rEnv, error) {
 		nscn++
 		t.Scenario(name)
-		r := &rEnv{abs: abs, t: t, c: c, fakes: map[string]*hx.FakeTCP{}, cur: map[string]hx.J{}, dev: fmt.Sprintf("dev%d", nscn), gca: "gca"}
+		r := &rEnv{abs: abs, t: t, c: c, fakes: map[string]*hx.FakeTCP{}, cur: map[string]hx.J{}, dev: fmt.Sprintf("dev%d", nscn), gca: "gca",
+			rids: map[uint64]string{}, lastPick: map[string]string{}, parked: make(chan struct{}, 1), unpark: make(chan struct{})}
 		cli, err := hx.NewCliEnv(abs, t, c.root, r.dev, uint32(100+nscn), 50, nil)
 		if err != nil {
 			return nil, err
@@ -181,21 +231,40 @@ func runRounds(c *ctx) error {
 		cli.Extra = func(cl *client.Client, ev string, args []interface{}) bool {
 			switch ev {
 			case "SyncBegin":
-				t.Emit(hx.J{"a": "SyncBegin", "state": abs.CliStateJ(cl.VerifStateLocked())})
+				t.Emit(r.with(hx.J{"a": "SyncBegin", "state": abs.CliStateJ(cl.VerifStateLocked())}))
 			case "SyncPick":
 				k := kr.Name(args[0].(glow.PublicKey))
 				serving, ok := r.cur[k]
 				if !ok {
 					serving = hx.J{"mode": "refuse", "reply": abs.DescribeReply(nil)}
 				}
-				t.Emit(hx.J{"a": "SyncPick", "server": k, "dev": r.dev, "serving": serving, "state": abs.CliStateJ(cl.VerifStateLocked())})
+				r.mu.Lock()
+				r.lastPick[r.rids[hx.GoID()]] = k
+				r.mu.Unlock()
+				t.Emit(r.with(hx.J{"a": "SyncPick", "server": k, "dev": r.dev, "serving": serving, "state": abs.CliStateJ(cl.VerifStateLocked())}))
 			case "SyncApply":
 				_ = args[2].([]server.AuthorizedServer)
-				t.Emit(hx.J{"a": "SyncApply", "dev": r.dev, "state": abs.CliStateJ(cl.VerifStateLocked()), "files": abs.CliFilesJ(cli.Dir)})
+				t.Emit(r.with(hx.J{"a": "SyncApply", "dev": r.dev, "state": abs.CliStateJ(cl.VerifStateLocked()), "files": abs.CliFilesJ(cli.Dir)}))
 			default:
 				return false
 			}
 			return true
+		}
+		// a round named in parkAt is held once at the yield point after its pick, before it connects
+		cli.YieldExtra = func(p string) {
+			if p != "sync:picked" {
+				return
+			}
+			r.mu.Lock()
+			hold := r.parkAt != "" && r.rids[hx.GoID()] == r.parkAt
+			if hold {
+				r.parkAt = ""
+			}
+			r.mu.Unlock()
+			if hold {
+				r.parked <- struct{}{}
+				<-r.unpark
+			}
 		}
 		if err := cli.Start(); err != nil {
 			return nil, err
